@@ -136,6 +136,8 @@ type Runner struct {
 	partial map[int]bool
 	Guard   time.Duration // see DefaultGuard
 	Dead    bool
+	nOpen   int
+	nCreate int
 }
 
 func (r *Runner) markPartial(h int, yes bool) {
@@ -322,12 +324,33 @@ func (r *Runner) do(o Op) (out Out) {
 	case "MkdirAll":
 		return e(f.MkdirAll(o.P, perm))
 	case "Open":
-		fh, err := f.OpenFile(o.P, o.Flag, perm)
+		// VFS.Open(name) is OpenFile(name, O_RDONLY, 0) by contract: a read-only open goes through
+		// either method in turn (the turn depends only on the history, so both sides of a comparison
+		// take the same one), and so does Create below.
+		r.nOpen++
+		var fh avfs.File
+		var err error
+		if op, ok := f.(interface {
+			Open(name string) (avfs.File, error)
+		}); ok && o.Flag == os.O_RDONLY && r.nOpen%2 == 1 {
+			fh, err = op.Open(o.P)
+		} else {
+			fh, err = f.OpenFile(o.P, o.Flag, perm)
+		}
 		r.Handles[o.H] = fh
 		delete(r.partial, o.H)
 		return e(err)
 	case "Create":
-		fh, err := f.OpenFile(o.P, os.O_RDWR|os.O_CREATE|os.O_TRUNC, 0o666)
+		r.nCreate++
+		var fh avfs.File
+		var err error
+		if cr, ok := f.(interface {
+			Create(name string) (avfs.File, error)
+		}); ok && r.nCreate%2 == 1 {
+			fh, err = cr.Create(o.P)
+		} else {
+			fh, err = f.OpenFile(o.P, os.O_RDWR|os.O_CREATE|os.O_TRUNC, 0o666)
+		}
 		r.Handles[o.H] = fh
 		return e(err)
 	case "WriteFile":
@@ -403,6 +426,12 @@ func (r *Runner) do(o Op) (out Out) {
 		fi, err := f.Stat(o.P)
 		if err != nil {
 			return e(err)
+		}
+		// A time set by Chtimes is compared exactly; a time that came from the clock of the
+		// file system (the preceding Chtimes was refused) is not a function of the history:
+		// two instances, or the kernel and the emulation, may sit on either side of a second.
+		if d := time.Since(fi.ModTime()); d > -time.Hour && d < time.Hour {
+			return Out{Err: "ok", Val: "recent"}
 		}
 		return Out{Err: "ok", Val: fmt.Sprint(fi.ModTime().Unix())}
 	case "Lstat":
